@@ -248,4 +248,10 @@ example : walk ["Guido".toList] "../etc/passwd".toList = walk [] "/etc/./passwd"
 
 example : permOf Verb.retr.guards = some [.readable] ∧ permOf Verb.appe.guards = some [.writable] := by decide
 
+/-- **fact_get_permissions_as_modelled**: as regenerated from `server.py`, `User.get_permissions` is filter(is_parent) over
+    `self.permissions` AS IT IS AT THE CALL, then `min` by the depth below the entry, default allow-all - a function of
+    the table and the path, with nothing kept between two calls (a table changed in place is the table the next
+    decision is taken on): the text `Model.getPermissions?` transcribes -/
+theorem fact_get_permissions_as_modelled : Generated.getPermissionsAsModelled = true := by decide
+
 end C04
